@@ -2,6 +2,7 @@
   C15 - The gRPC transport delivers the writer's bytes unchanged and chunk-aligned.
 -/
 import Stef.Proofs.Chunk
+import Stef.Proofs.ChunkDrain
 
 namespace Stef.Props.C15
 open Stef Stef.Chunk
@@ -58,6 +59,42 @@ theorem split_irrelevant (parts : List Bytes) (last : Bytes) (rest : List Msg) :
   induction parts with
   | nil => intro acc; simp [chunksAux]
   | cons p ps ih => intro acc; simp [chunksAux, ih, List.append_assoc]
+
+/-- **drain_delivers_everything** (liveness of the transport; makes the second half of
+    `bytes_unchanged` non-vacuous for EVERY message sequence): a consumer that keeps reading with
+    any positive buffer size `k` reaches the end of the source after at most
+    `bytes + messages + 1` reads, and what it was handed is then exactly the concatenation of all
+    complete chunks - no chunk is withheld, none is delivered twice. The bound counts messages
+    too because an empty chunk costs one read that returns no bytes. -/
+theorem drain_delivers_everything (ms : List Msg) (k : Nat) (hk : 0 < k) :
+    let N := msgBytes ms + ms.length + 1
+    let r := ({ src := ms } : Asm).run (List.replicate N k)
+    r.2.2 = true ∧ r.1.flatten = (chunks ms).flatten := by
+  intro N r
+  have he : r.2.2 = true :=
+    run_reaches_end k hk N { src := ms } (by simp [Asm.mu, N])
+  exact ⟨he, (bytes_unchanged ms (List.replicate N k)).2 he⟩
+
+/-- **read_sizes_irrelevant**: two consumers with different read-size sequences that both reach
+    the end of the source were handed the same bytes. -/
+theorem read_sizes_irrelevant (ms : List Msg) (ns₁ ns₂ : List Nat)
+    (h₁ : (({ src := ms } : Asm).run ns₁).2.2 = true)
+    (h₂ : (({ src := ms } : Asm).run ns₂).2.2 = true) :
+    (({ src := ms } : Asm).run ns₁).1.flatten = (({ src := ms } : Asm).run ns₂).1.flatten := by
+  rw [(bytes_unchanged ms ns₁).2 h₁, (bytes_unchanged ms ns₂).2 h₂]
+
+/-- **resplit_irrelevant**: two message sequences that carry the same chunks (however each chunk
+    is cut into messages) are indistinguishable to draining consumers, whatever their read sizes. -/
+theorem resplit_irrelevant (ms₁ ms₂ : List Msg) (hc : chunks ms₁ = chunks ms₂) (ns₁ ns₂ : List Nat)
+    (h₁ : (({ src := ms₁ } : Asm).run ns₁).2.2 = true)
+    (h₂ : (({ src := ms₂ } : Asm).run ns₂).2.2 = true) :
+    (({ src := ms₁ } : Asm).run ns₁).1.flatten = (({ src := ms₂ } : Asm).run ns₂).1.flatten := by
+  rw [(bytes_unchanged ms₁ ns₁).2 h₁, (bytes_unchanged ms₂ ns₂).2 h₂, hc]
+
+-- non-vacuity of the two conditional statements: by `drain_delivers_everything` the hypotheses
+-- h₁ / h₂ are met by `List.replicate (msgBytes ms + ms.length + 1) k` for every ms and k > 0.
+example (ms : List Msg) : ∃ ns, (({ src := ms } : Asm).run ns).2.2 = true :=
+  ⟨_, (drain_delivers_everything ms 1 (by omega)).1⟩
 
 -- non-vacuity: a two-chunk stream split over three messages, read in sizes 1,2,8,8 and drained.
 example :
